@@ -50,6 +50,8 @@ def decorate(case, secret, mode, msg):
             st["secret"], st["mode"] = secret, mode
         if st["ev"] == "Combine":
             st["msg"] = msg
+            if msg.get("kind") == "pfx":     # successive combinations: same 32-byte prefix, another tail each time
+                msg = dict(msg, tail=msg["tail"] + 1)
         out.append(st)
     return out
 
@@ -73,7 +75,9 @@ def special(cases, seed, k):
     out = []
     for c in r.sample(cases, min(k, len(cases))):
         sec = r.choice([{"kind": "one"}, {"kind": "max"}, seeded(r)])
-        msg = r.choice([{"kind": "empty", "seed": 0}, {"kind": "long", "seed": r.randrange(1, 2 ** 40)}])
+        msg = r.choice([{"kind": "empty", "seed": 0}, {"kind": "long", "seed": r.randrange(1, 2 ** 40)},
+                        {"kind": "pfx", "seed": r.randrange(1, 2 ** 40), "tail": r.randrange(1, 90)},
+                        {"kind": "pfx", "seed": r.randrange(1, 2 ** 40), "tail": r.randrange(1, 90)}])
         out.append(decorate(c, sec, r.choice(["csprng", "seeded"]), msg))
     return out
 
